@@ -48,9 +48,11 @@ fn process_dec(token: Token, negative: bool) -> Result<Expression, ParserError> 
                 Ok(Expression::DoubleLiteral(n as f64))
             }
         }
-        // more digits than fit in 32 bits: a double, like every other value outside the long range
+        // more digits than fit in 32 bits: a double, like every other value outside the long range,
+        // unless it is outside the double range as well (parsed as an infinity)
         Err(_) => match token.to_string().parse::<f64>() {
-            Ok(f) => Ok(Expression::DoubleLiteral(if negative { -f } else { f })),
+            Ok(f) if f.is_finite() => Ok(Expression::DoubleLiteral(if negative { -f } else { f })),
+            Ok(_) => Err(ParserError::Overflow),
             Err(e) => Err(e.into()),
         },
     }
